@@ -11,7 +11,8 @@
 //   isect  SEG: 4-point paths a,b,c,d                       GetSegmentIntersectPt(a,b,c,d,ip)
 //   area   PATHS: a list of paths                           Area(path) per path, Area(paths)
 //
-// --mode grid : indexable exhaustive enumeration (22^4 ProductsAreEqual tuples, T^6 point triples, Multiply pairs);
+// --mode grid : indexable exhaustive enumeration (22^4 ProductsAreEqual tuples, T^6 point triples, Multiply pairs,
+//               all 3- and 4-vertex polygons of a 4x4 lattice against a 9x9 query lattice);
 // --mode rand : random + adversarial bundles, kinds chosen by --kinds.
 #include "geom.h"
 #include "clipper2/clipper.core.h"
@@ -82,7 +83,13 @@ static void vio(Ctx& ctx, const std::string& claim, const std::vector<std::strin
   std::string sig = claim; for (auto& t : tags) sig += "|" + t;
   ctx.count("violating_items_" + claim.substr(4) + "_" + (tags.empty() ? std::string("untagged") : tags[0]));
   if (++seen[sig] > kLogCap) { ctx.count("violations_counted_but_not_logged_beyond_cap"); return; }
+  // vf.h writes at most 8 witness files per claim; make sure that the first two violations of every class
+  // (claim + first tag) have a replayable witness even when a frequent known class used up that allowance
+  static std::map<std::string, int> cls_seen;
+  int save = ctx.max_witness_per_claim;
+  if (++cls_seen[claim + "|" + (tags.empty() ? std::string() : tags[0])] <= 2) ctx.max_witness_per_claim = 1 << 30;
   ctx.violation(claim, tags, w, detail);
+  ctx.max_witness_per_claim = save;
 }
 
 // ------------------------------------------------------------------------------------------------ boundary grids
@@ -103,13 +110,16 @@ static const uint64_t kMulGrid[] = {
 static const size_t kMulGridN = sizeof(kMulGrid) / sizeof(kMulGrid[0]);
 static const uint64_t kChunk = 1024;
 
-struct GridLayout { uint64_t npae, ntri, nmul, cpae, ctri, cmul; int tset; uint64_t chunks() const { return cpae + ctri + cmul; } uint64_t items() const { return npae + ntri + nmul; } };
+static const uint64_t kPipChunk = 64;   // polygons per chunk of the exhaustive PointInPolygon scope
+struct GridLayout { uint64_t npae, ntri, nmul, npip, cpae, ctri, cmul, cpip; int tset; uint64_t chunks() const { return cpae + ctri + cmul + cpip; } };
 static GridLayout grid_layout(int tset) {
   GridLayout g; g.tset = tset;
   g.npae = 22ull * 22 * 22 * 22;
   g.ntri = 1; for (int i = 0; i < 6; ++i) g.ntri *= (uint64_t)tset;
   g.nmul = kMulGridN * kMulGridN;
+  g.npip = 16ull * 16 * 16 + 16ull * 16 * 16 * 16;   // all 3- and 4-vertex sequences on a 4x4 lattice
   g.cpae = (g.npae + kChunk - 1) / kChunk; g.ctri = (g.ntri + kChunk - 1) / kChunk; g.cmul = (g.nmul + kChunk - 1) / kChunk;
+  g.cpip = (g.npip + kPipChunk - 1) / kPipChunk;
   return g;
 }
 
@@ -408,10 +418,13 @@ static void judge_isect(Ctx& ctx, const Case& c, bool from_replay) {
     bool near_line = abs128(cr) <= (i128)iabs64(d1x) + (i128)iabs64(d1y);
     if (abs128(cr) > (i128)std::max(iabs64(d1x), iabs64(d1y))) ++hist["isect_ip_cross_above_max_norm_but_within_sum_norm"];
     if (!inbox || !near_line) {
-      // ill-conditioned crossings get their own class (the hp variant does not clamp to the segment: the rounding
-      // error of an ill-conditioned crossing at an end point can leave the box by a unit although it is within one
-      // unit of the crossing)
-      report("C18.isect_on_first_segment", { std::string(ill ? "ill_conditioned_" : "") + (inbox ? "off_the_line" : "outside_bounding_box"), std::string("variant_") + C18_ISECT, mcs, std::string("cond_") + cond },
+      // class "<variant>_one_unit_outside_bounding_box": the point is within one unit per axis of the exact crossing
+      // (checked above) but one unit outside the box of the first segment (seen in the hp variant, which does not
+      // clamp to the segment: a crossing at an end point whose rounding error reaches half a unit)
+      int64_t ox = std::max<int64_t>(0, std::max(std::min(a.x, b.x) - ip.x, ip.x - std::max(a.x, b.x)));
+      int64_t oy = std::max<int64_t>(0, std::max(std::min(a.y, b.y) - ip.y, ip.y - std::max(a.y, b.y)));
+      std::string cls = inbox ? "off_the_line" : ((ox <= 1 && oy <= 1) ? std::string(C18_ISECT) + "_one_unit_outside_bounding_box" : "outside_bounding_box");
+      report("C18.isect_on_first_segment", { cls, std::string("variant_") + C18_ISECT, mcs, std::string("cond_") + cond },
         it, "GetSegmentIntersectPt(" + spt(a) + spt(b) + " , " + spt(cpt) + spt(d) + ") -> " + spt(ip) +
         " is not on the first segment: in bounding box " + (inbox ? "yes" : "no") + ", |cross| = " + s128(abs128(cr)) + " vs |dx|+|dy| = " + s128((i128)iabs64(d1x) + iabs64(d1y)));
       continue;
@@ -892,13 +905,27 @@ static void grid_case(Ctx& ctx, uint64_t i) {
       T.push_back(tri_item(Point64(x[0], x[1]), Point64(x[2], x[3]), Point64(x[4], x[5])));
     }
     ctx.count("grid_point_triples_done_" + cfg, (long long)(hi - lo));
-  } else {
+  } else if (i < g.cpae + g.ctri + g.cmul) {
     c.set("kind", "mul");
     uint64_t lo = (i - g.cpae - g.ctri) * kChunk, hi = std::min(g.nmul, lo + kChunk);
     for (uint64_t t = lo; t < hi; ++t) T.push_back(P1((int64_t)kMulGrid[t % kMulGridN], (int64_t)kMulGrid[t / kMulGridN]));
     ctx.count("grid_multiply_pairs_done_" + cfg, (long long)(hi - lo));
+  } else {
+    // every 3- and 4-vertex sequence on the 4x4 lattice {0,2,4,6}^2 (scale 2, so that edge midpoints are lattice
+    // points of the query lattice) against all 81 points of -1..7 x -1..7
+    c.set("kind", "pip");
+    uint64_t lo = (i - g.cpae - g.ctri - g.cmul) * kPipChunk, hi = std::min(g.npip, lo + kPipChunk);
+    Path64 Q; for (int y = -1; y <= 7; ++y) for (int x = -1; x <= 7; ++x) Q.emplace_back((int64_t)x, (int64_t)y);
+    Paths64 POLY, QQ;
+    for (uint64_t t = lo; t < hi; ++t) {
+      int nv = t < 4096 ? 3 : 4; uint64_t v = t < 4096 ? t : t - 4096;
+      Path64 poly; for (int k = 0; k < nv; ++k) { poly.emplace_back((int64_t)(2 * (v % 4)), (int64_t)(2 * ((v / 4) % 4))); v /= 16; }
+      POLY.push_back(poly); QQ.push_back(Q);
+    }
+    c.p64["POLY"] = POLY; c.p64["Q"] = QQ;
+    ctx.count("grid_pip_polygons_done_" + cfg, (long long)(hi - lo));
   }
-  c.p64["T"] = T;
+  if (c.gets("kind") != "pip") c.p64["T"] = T;
   ctx.count("grid_chunks_done_" + cfg);
   judge(ctx, c, false);
 }
@@ -939,6 +966,7 @@ void vf_end(Ctx& ctx) {
     ctx.count("grid_pae_tuples_expected_" + cfg, (long long)g.npae);
     ctx.count("grid_point_triples_expected_" + cfg, (long long)g.ntri);
     ctx.count("grid_multiply_pairs_expected_" + cfg, (long long)g.nmul);
+    ctx.count("grid_pip_polygons_expected_" + cfg, (long long)g.npip);
     ctx.count("grid_chunks_expected_" + cfg, (long long)g.chunks());
   }
 }
